@@ -32,6 +32,9 @@ const garbageVal = ^uint64(0)
 
 func kvsValue(id uint64) []byte {
 	b := make([]byte, 4096)
+	if id == 0 {
+		return b // the initial contents of every key
+	}
 	binary.LittleEndian.PutUint64(b, id)
 	for i := 8; i < 4096; i++ {
 		b[i] = patByte(id, uint64(i))
@@ -84,6 +87,7 @@ func (kvsEngine) Gen(prop string, seed uint64, tier string) *Spec {
 		spec.Knobs["subsets"] = 8
 	}
 	val := uint64(1)
+	earlier := map[uint64][]uint64{}
 	if big {
 		spec.Knobs["big"] = 1
 	}
@@ -128,7 +132,19 @@ func (kvsEngine) Gen(prop string, seed uint64, tier string) *Spec {
 						k = sz - 1
 					}
 					op.Keys = append(op.Keys, k)
+					if rng.Chance(0.25) {
+						// a value this key held (or may hold) before, the initial zero block
+						// included: a put that changes nothing for this key
+						h := earlier[k]
+						if len(h) == 0 {
+							op.Vals = append(op.Vals, 0)
+						} else {
+							op.Vals = append(op.Vals, append([]uint64{0}, h...)[rng.Intn(len(h)+1)])
+						}
+						continue
+					}
 					op.Vals = append(op.Vals, uint64(c+1)<<32|val)
+					earlier[k] = append(earlier[k], uint64(c+1)<<32|val)
 					val++
 				}
 				ops = append(ops, op)
